@@ -40,6 +40,13 @@ Clauses(r) ==
          << <<"dersig-read-outcome", IF p.ok THEN r.out.k = "ret" ELSE r.out.k = p.err>>,
             <<"dersig-read-value", (p.ok /\ r.out.k = "ret") => (r.out.r = p.v.r /\ r.out.s = p.v.s /\ r.out.length = p.v.length)>>,
             <<"dersig-write-inverts-read", (p.ok /\ p.v.whole /\ r.out.k = "ret") => r.out.reser = r.in.b>> >>
+    [] r.op = "x.rpcreq" ->
+         LET e == RpcRequest(r.in.method, r.in.a) IN
+         << <<"rpc-wire-method-name", r.out.sent /\ r.out.name = e.name>>,
+            <<"rpc-wire-parameter-count", r.out.sent => Len(r.out.params) = Len(e.params)>>,
+            <<"rpc-wire-parameters", (r.out.sent /\ Len(r.out.params) = Len(e.params)) =>
+                                       \A i \in 1..Len(e.params) : JMatch(e.params[i], r.out.params[i])>>,
+            <<"rpc-wire-version-1.1", r.out.sent => r.out.version = <<49, 46, 49>> >> >>
     [] OTHER -> << <<"unknown-op", FALSE>> >>
 TraceInit == l = TraceStart
 TraceNext == l <= Len(Recs) /\ Judge(Recs[l], Clauses(Recs[l])) /\ l' = l + 1
